@@ -95,9 +95,39 @@ def f_luminosity : Family :=
 def f_luminosity_grey : Family :=
   { name := "luminosity_grey", kind := .frac, keys := [[]], nOut := fun _ => 1, spec := fun _ _ => v 0 }
 
+
+/-! `rgbColor(hsv)` (gtx/color_space): grey when the saturation is within `epsilon` of 0; otherwise with
+    `hh = h·(1/60)`, `sec = floor hh`, `f = hh − sec`, `o = v(1−s)`, `p = v(1−s f)`, `q = v(1−s(1−f))` the textbook table
+    sector 0: (v,q,o)  1: (p,v,o)  2: (o,v,q)  3: (o,p,v)  4: (q,o,v)  5: (v,o,p), any other sector as sector 0.
+    The sector switch `switch(int(sec))` is traced as decisions `sec < k` (walk mode). -/
+def hsvH : E := v 0
+def hsvS : E := v 1
+def hsvV : E := v 2
+def hh : E := .mul hsvH (.div one (.lit 60 1))
+def sec : E := .call1 .floor hh
+def frc : E := .sub hh sec
+def hsvO : E := .mul hsvV (.sub one hsvS)
+def hsvP : E := .mul hsvV (.sub one (.mul hsvS frc))
+def hsvQ : E := .mul hsvV (.sub one (.mul hsvS (.sub one frc)))
+def sectorRGB (k j : Nat) : E :=
+  ((match k with
+    | 1 => [hsvP, hsvV, hsvO] | 2 => [hsvO, hsvV, hsvQ] | 3 => [hsvO, hsvP, hsvV]
+    | 4 => [hsvQ, hsvO, hsvV] | 5 => [hsvV, hsvO, hsvP] | _ => [hsvV, hsvQ, hsvO]) : List E).getD j zero
+def rgbColorT (j : Nat) : Tree :=
+  .branch (.and (.le hsvS (.konst .eps)) (.le (.neg hsvS) (.konst .eps))) (.leaf hsvV)
+    (.branch (.lt sec (.lit 1 1)) (.leaf (sectorRGB 0 j))
+    (.branch (.lt sec (.lit 2 1)) (.leaf (sectorRGB 1 j))
+    (.branch (.lt sec (.lit 3 1)) (.leaf (sectorRGB 2 j))
+    (.branch (.lt sec (.lit 4 1)) (.leaf (sectorRGB 3 j))
+    (.branch (.lt sec (.lit 5 1)) (.leaf (sectorRGB 4 j))
+    (.branch (.lt sec (.lit 6 1)) (.leaf (sectorRGB 5 j)) (.leaf (sectorRGB 0 j))))))))
+def f_rgbColor : Family :=
+  { name := "rgbColor", kind := .poly, treeMode := true, treeWalk := true, keys := [[]], nOut := fun _ => 3,
+    spec := fun _ _ => zero, specT := fun _ j => rgbColorT j }
+
 def families : List Family :=
   [f_ycocgr_rt, f_ycocgr_fwd, f_ycocgr_bwd, f_ycocg_fwd, f_ycocg_bwd, f_ycocg_rt, f_ycocg_rt2, f_ycocgrf_rt, f_ycocgrf_rt2,
-   f_lin2srgb, f_lin2srgb_g, f_srgb2lin, f_srgb2lin_g, f_saturation_grey, f_luminosity]
+   f_lin2srgb, f_lin2srgb_g, f_srgb2lin, f_srgb2lin_g, f_saturation_grey, f_luminosity, f_rgbColor]
 
 /-- clauses of the property that glm does not satisfy on the pinned tree: recorded findings, proved *false*
     in `Findings/C19.lean`, searched for witnesses by the driver like every other family -/
